@@ -171,6 +171,11 @@ func exprText(e ast.Expr) string {
 		if x := exprText(t.X); x != "" {
 			return x + "." + t.Sel.Name
 		}
+	case *ast.CallExpr:
+		// the callee only: `a.b(c)` reads as `a.b()`
+		if x := exprText(t.Fun); x != "" {
+			return x + "()"
+		}
 	}
 	return ""
 }
@@ -276,6 +281,93 @@ func accessFacts(repo string) []access {
 	return out
 }
 
+// methodSwitch reads the `switch method := ...GetMethod(...)` of updateChildren: per case clause the method names it
+// lists (constants of the API package resolved to their string values, "" kept), the client verbs called in the clause
+// (Create / Update / Delete on the resource client) and the apierrors predicates tested in it (the swallowed errors).
+func methodSwitch(fn *ast.FuncDecl, consts map[string]string) []string {
+	var out []string
+	if fn == nil {
+		return out
+	}
+	ast.Inspect(fn.Body, func(n ast.Node) bool {
+		sw, ok := n.(*ast.SwitchStmt)
+		if !ok || sw.Init == nil {
+			return true
+		}
+		as, ok := sw.Init.(*ast.AssignStmt)
+		if !ok || len(as.Rhs) != 1 || !strings.Contains(exprText(as.Rhs[0]), "GetMethod") {
+			return true
+		}
+		for _, st := range sw.Body.List {
+			cc := st.(*ast.CaseClause)
+			var names []string
+			if cc.List == nil {
+				names = append(names, "<default>")
+			}
+			for _, e := range cc.List {
+				switch t := e.(type) {
+				case *ast.BasicLit:
+					v, _ := strconv.Unquote(t.Value)
+					names = append(names, v)
+				case *ast.SelectorExpr:
+					if v, ok := consts[t.Sel.Name]; ok {
+						names = append(names, v)
+					} else {
+						names = append(names, "?"+t.Sel.Name)
+					}
+				default:
+					names = append(names, "?"+exprText(e))
+				}
+			}
+			var verbs, preds []string
+			for _, b := range cc.Body {
+				ast.Inspect(b, func(m ast.Node) bool {
+					ce, ok := m.(*ast.CallExpr)
+					if !ok {
+						return true
+					}
+					if se, ok := ce.Fun.(*ast.SelectorExpr); ok {
+						switch se.Sel.Name {
+						case "Create", "Update", "Delete", "Patch", "UpdateStatus":
+							if strings.Contains(exprText(se.X), "client") {
+								verbs = append(verbs, se.Sel.Name)
+							}
+						}
+						if id, ok := se.X.(*ast.Ident); ok && id.Name == "apierrors" {
+							preds = append(preds, se.Sel.Name)
+						}
+					}
+					return true
+				})
+			}
+			out = append(out, fmt.Sprintf("(%s, %s, %s)", leanList(names), leanList(verbs), leanList(preds)))
+		}
+		return false
+	})
+	return out
+}
+
+// stringConsts: every `Name Type = "value"` constant of a file.
+func stringConsts(f *ast.File) map[string]string {
+	out := map[string]string{}
+	ast.Inspect(f, func(n ast.Node) bool {
+		vs, ok := n.(*ast.ValueSpec)
+		if !ok {
+			return true
+		}
+		for i, id := range vs.Names {
+			if i < len(vs.Values) {
+				if bl, ok := vs.Values[i].(*ast.BasicLit); ok && bl.Kind == token.STRING {
+					v, _ := strconv.Unquote(bl.Value)
+					out[id.Name] = v
+				}
+			}
+		}
+		return true
+	})
+	return out
+}
+
 func main() {
 	repo := "/repo"
 	if len(os.Args) > 1 {
@@ -320,6 +412,10 @@ func main() {
 	}
 	// (shared map, function, is a write, lock held: 0 none / 1 read lock / 2 exclusive lock)
 	w("def sharedMapAccesses : List (String × String × Bool × Nat) := [%s]\n", strings.Join(facts, ", "))
+	// C06: the strategy switch of updateChildren: (method names of the case, client verbs called in it, apierrors predicates tested in it)
+	types := parse(repo, "pkg/apis/metacontroller/v1alpha1/types.go")
+	w("def updateMethodSwitch : List (List String × List String × List String) := [%s]\n",
+		strings.Join(methodSwitch(funcDecl(manage, "updateChildren"), stringConsts(types)), ", "))
 	w("end Mc.Generated\n")
 	fmt.Print(b.String())
 }
